@@ -566,6 +566,7 @@ fn all_rolls() -> Vec<RollDay> {
 
 pub fn check(case: &Case, idx: u64, acc: &mut Acc) {
     let cj = || serde_json::to_value(case).unwrap();
+    progress(idx);
     match case {
         Case::DualCtor { names, ng, nh } => {
             let pool = ["x", "y", "z"];
